@@ -27,7 +27,7 @@ def make_cfg(rng):
     cfg['p_say'] = rng.choice([0.0, 0.0, 0.2, 0.5])
     cfg['n_modules'] = (1, 1)
     cfg['n_funcs'] = (1, 3)
-    cfg['forms'] = list(gen.SIMPLE_FORMS) + ['emitop', 'emitnoeol', 'emitnoeol']
+    cfg['forms'] = list(gen.SIMPLE_FORMS) + ['emitop', 'emitnoeol', 'emitnoeol', 'writeout', 'writeout', 'const', 'const']
     cfg['p_none_want'] = rng.choice([0.0, 0.15])
     if rng.random() < 0.25:
         cfg['async_forms'] = list(gen.ASYNC_FORMS)
@@ -126,7 +126,14 @@ def generate(rng, tier):
         import world as W
         for dtid, dt, mod in W.iter_doctests(world):
             if rng.random() < 0.5:
-                gen.add_skips(rng, dt['steps'])
+                if rng.random() < 0.15:
+                    # nothing runs, and several of the parts that do not run read the same
+                    dt['steps'] = [{'i': j, 'form': 'const', 'pts': [], 'ps2': False, 'sep': 'none' if j == 0 else 'blank'}
+                                   for j in range(rng.randint(2, 4))]
+                    dt['steps'].insert(0, {'i': 9, 'form': 'directive', 'pts': [], 'ps2': False, 'sep': 'none',
+                                           'dirs': [rng.choice([['+', 'SKIP', None], ['+', 'REQUIRES', 'env:SIM_NOT_SET']])]})
+                else:
+                    gen.add_skips(rng, dt['steps'])
     ids = gen.doctest_ids(world)
     rng.shuffle(ids)
     ops = []
